@@ -416,6 +416,13 @@ func TestC16(t *testing.T) {
 			}
 			seenKind[k] = true
 			variants := []Event{{}, {Gzip: true}, {InContainer: true}, {ContentRelated: true}, {Split: 3}, {Split: 37}}
+			if k == "bad-msg" {
+				// every error code of the list (documented and not), plain and in a container
+				variants = nil
+				for a := 0; a < 23; a++ {
+					variants = append(variants, Event{Arg: int64(a) << 2, InContainer: a%3 == 1, Gzip: a%5 == 2})
+				}
+			}
 			if k == "envelope:badlen" {
 				// every declared length of the list, with the msg_key over everything and over the header only
 				variants = nil
@@ -447,7 +454,7 @@ func TestC16(t *testing.T) {
 				if k == "empty-body" || k == "truncated" || k == "raw-soup" || k == "gzip-damaged" || strings.HasPrefix(k, "envelope:") {
 					ev.Gzip = false
 				}
-				if k == "envelope:badlen" || k == "close-pending" {
+				if k == "envelope:badlen" || k == "close-pending" || k == "bad-msg" {
 					ev.Arg = variant.Arg
 				}
 				if k == "raw-soup" {
